@@ -1002,4 +1002,173 @@ theorem optIndex_ok {names : List (Option Str)} {o : Option Str} {i : Nat}
       subst h
       exact ⟨(getIndex_ok hg).1, n, rfl, (getIndex_ok hg).2⟩
 
+/-! ## Part G: `_introspectable_property_analysis` keeps accessor names consistent -/
+
+/-- the cross-reference clause of C05 for accessors, as `girWellFormed` checks it on the written
+    attributes: a property's setter / getter is a method that names the property back, and a
+    method's set-property / get-property — when a property of that name exists (the first one is
+    looked at) — is named by that property as its setter / getter -/
+def AccAgree (ps : List Prop') (ms : List Sub) : Prop :=
+  (∀ p ∈ ps, ∀ m, p.setter = some m → ∃ f ∈ ms, f.isMethod = true ∧ f.name = m ∧ f.setProp = some p.name)
+  ∧ (∀ p ∈ ps, ∀ m, p.getter = some m → ∃ f ∈ ms, f.isMethod = true ∧ f.name = m ∧ f.getProp = some p.name)
+  ∧ (∀ f ∈ ms, f.isMethod = true → ∀ pn, f.setProp = some pn →
+      ∀ p, ps.find? (fun p => p.name == pn) = some p → p.setter = some f.name)
+  ∧ (∀ f ∈ ms, f.isMethod = true → ∀ pn, f.getProp = some pn →
+      ∀ p, ps.find? (fun p => p.name == pn) = some p → p.getter = some f.name)
+
+theorem propAfter_name (ns : NS) (tf : List Bool) (p : Prop') : (propAfter ns tf p).name = p.name := by
+  unfold propAfter; split <;> rfl
+
+/-- a property that still has an accessor, or is still introspectable, was left alone -/
+theorem propAfter_eq_of_intro {ns : NS} {tf : List Bool} {p : Prop'} (h : (propAfter ns tf p).intro = true) :
+    propAfter ns tf p = p := by
+  unfold propAfter at h ⊢
+  split
+  · rfl
+  · rename_i hn; simp [hn] at h
+
+theorem propAfter_eq_of_setter {ns : NS} {tf : List Bool} {p : Prop'} {m : Str}
+    (h : (propAfter ns tf p).setter = some m) : propAfter ns tf p = p := by
+  unfold propAfter at h ⊢
+  split
+  · rfl
+  · rename_i hn; simp [hn] at h
+
+theorem propAfter_eq_of_getter {ns : NS} {tf : List Bool} {p : Prop'} {m : Str}
+    (h : (propAfter ns tf p).getter = some m) : propAfter ns tf p = p := by
+  unfold propAfter at h ⊢
+  split
+  · rfl
+  · rename_i hn; simp [hn] at h
+
+theorem clearAcc_some {ps : List Prop'} {o : Option Str} {n : Str} (h : clearAcc ps o = some n) :
+    o = some n ∧ ∀ p ∈ ps, p.name = n → p.intro = true := by
+  cases o with
+  | none => simp [clearAcc] at h
+  | some x =>
+    simp only [clearAcc] at h
+    split at h
+    · cases h
+    · rename_i hany
+      cases h
+      refine ⟨rfl, fun p hp hn => ?_⟩
+      cases hi : p.intro with
+      | true => rfl
+      | false =>
+        exfalso; apply hany
+        simp only [List.any_eq_true]
+        exact ⟨p, hp, by simp [hn, hi]⟩
+
+theorem clearAcc_keep {ps : List Prop'} {n : Str} (h : ∀ p ∈ ps, p.name = n → p.intro = true) :
+    clearAcc ps (some n) = some n := by
+  simp only [clearAcc]
+  split
+  · rename_i hany
+    simp only [List.any_eq_true, Bool.and_eq_true, beq_iff_eq, Bool.not_eq_true'] at hany
+    obtain ⟨p, hp, hn, hi⟩ := hany
+    rw [h p hp hn] at hi; cases hi
+  · rfl
+
+theorem find?_map_propAfter (ns : NS) (tf : List Bool) (pn : Str) : ∀ (ps : List Prop'),
+    (ps.map (propAfter ns tf)).find? (fun p => p.name == pn) =
+      (ps.find? (fun p => p.name == pn)).map (propAfter ns tf)
+  | [] => rfl
+  | p :: ps => by
+    simp only [List.map_cons, List.find?_cons, propAfter_name]
+    cases p.name == pn with
+    | true => rfl
+    | false => exact find?_map_propAfter ns tf pn ps
+
+/-- The property analysis keeps the accessor cross references consistent, for a class whose
+    property names are distinct and whose properties that are already non-introspectable carry
+    no accessor. -/
+theorem accessorsAfter_agree (ns : NS) (tf : List Bool) (t : Top)
+    (huniq : ∀ p ∈ t.props, ∀ q ∈ t.props, p.name = q.name → p = q)
+    (hdead : ∀ p ∈ t.props, p.intro = false → p.setter = none ∧ p.getter = none)
+    (h : AccAgree t.props t.subs) :
+    AccAgree (accessorsAfter ns tf t).1 (accessorsAfter ns tf t).2 := by
+  unfold accessorsAfter
+  split
+  · exact h
+  · simp only
+    obtain ⟨h1, h2, h3, h4⟩ := h
+    -- a surviving property keeps every method that names it
+    have keep : ∀ p ∈ t.props, propAfter ns tf p = p → p.intro = true →
+        ∀ q' ∈ t.props.map (propAfter ns tf), q'.name = p.name → q'.intro = true := by
+      intro p hp hpe hpi q' hq' hn
+      obtain ⟨q, hq, rfl⟩ := List.mem_map.mp hq'
+      rw [propAfter_name] at hn
+      have := huniq q hq p hp hn
+      subst this
+      rw [hpe]; exact hpi
+    refine ⟨?_, ?_, ?_, ?_⟩
+    · intro p' hp' m hm
+      obtain ⟨p, hp, rfl⟩ := List.mem_map.mp hp'
+      have he := propAfter_eq_of_setter hm
+      rw [he] at hm ⊢
+      have hpi : p.intro = true := by
+        cases hi : p.intro with
+        | true => rfl
+        | false => rw [(hdead p hp hi).1] at hm; cases hm
+      obtain ⟨f, hf, hfm, hfn, hfs⟩ := h1 p hp m hm
+      refine ⟨methodAfter (t.props.map (propAfter ns tf)) f, List.mem_map.mpr ⟨f, hf, rfl⟩, ?_, ?_, ?_⟩
+      · simp [methodAfter, hfm]
+      · simp [methodAfter, hfm, hfn]
+      · simp only [methodAfter, hfm, if_true, hfs]
+        exact clearAcc_keep (keep p hp he hpi)
+    · intro p' hp' m hm
+      obtain ⟨p, hp, rfl⟩ := List.mem_map.mp hp'
+      have he := propAfter_eq_of_getter hm
+      rw [he] at hm ⊢
+      have hpi : p.intro = true := by
+        cases hi : p.intro with
+        | true => rfl
+        | false => rw [(hdead p hp hi).2] at hm; cases hm
+      obtain ⟨f, hf, hfm, hfn, hfs⟩ := h2 p hp m hm
+      refine ⟨methodAfter (t.props.map (propAfter ns tf)) f, List.mem_map.mpr ⟨f, hf, rfl⟩, ?_, ?_, ?_⟩
+      · simp [methodAfter, hfm]
+      · simp [methodAfter, hfm, hfn]
+      · simp only [methodAfter, hfm, if_true, hfs]
+        exact clearAcc_keep (keep p hp he hpi)
+    · intro f' hf' hm' pn hs' p' hfind
+      obtain ⟨f, hf, rfl⟩ := List.mem_map.mp hf'
+      have hfm : f.isMethod = true := by
+        unfold methodAfter at hm'; split at hm'
+        · assumption
+        · exact hm'
+      simp only [methodAfter, hfm, if_true] at hs' ⊢
+      obtain ⟨hs, hall⟩ := clearAcc_some hs'
+      rw [find?_map_propAfter] at hfind
+      cases hfp : t.props.find? (fun p => p.name == pn) with
+      | none => rw [hfp] at hfind; cases hfind
+      | some p =>
+        rw [hfp] at hfind
+        simp only [Option.map_some, Option.some.injEq] at hfind
+        subst hfind
+        have hpm : p ∈ t.props := List.mem_of_find?_eq_some hfp
+        have hpn : p.name = pn := by simpa using List.find?_some hfp
+        have hi := hall (propAfter ns tf p) (List.mem_map.mpr ⟨p, hpm, rfl⟩) (by rw [propAfter_name]; exact hpn)
+        rw [propAfter_eq_of_intro hi]
+        exact h3 f hf hfm pn hs p hfp
+    · intro f' hf' hm' pn hs' p' hfind
+      obtain ⟨f, hf, rfl⟩ := List.mem_map.mp hf'
+      have hfm : f.isMethod = true := by
+        unfold methodAfter at hm'; split at hm'
+        · assumption
+        · exact hm'
+      simp only [methodAfter, hfm, if_true] at hs' ⊢
+      obtain ⟨hs, hall⟩ := clearAcc_some hs'
+      rw [find?_map_propAfter] at hfind
+      cases hfp : t.props.find? (fun p => p.name == pn) with
+      | none => rw [hfp] at hfind; cases hfind
+      | some p =>
+        rw [hfp] at hfind
+        simp only [Option.map_some, Option.some.injEq] at hfind
+        subst hfind
+        have hpm : p ∈ t.props := List.mem_of_find?_eq_some hfp
+        have hpn : p.name = pn := by simpa using List.find?_some hfp
+        have hi := hall (propAfter ns tf p) (List.mem_map.mpr ⟨p, hpm, rfl⟩) (by rw [propAfter_name]; exact hpn)
+        rw [propAfter_eq_of_intro hi]
+        exact h4 f hf hfm pn hs p hfp
+
 end GIVerif.Introspectable
